@@ -143,7 +143,7 @@ def eventauth__StateNeededForAuth : List String := [
   "for _, event := range events {",
   "var content *membershipContent",
   "if event.Type() == spec.MRoomMember {",
-  "_ = json.Unmarshal(event.Content(), &content)",
+  "_ = json.Unmarshal(exactMembersOnly(event.Content(), content), &content)",
   "}",
   "_ = accumulateStateNeeded(&result, event.Type(), event.SenderID(), event.StateKey(), content)",
   "}",
@@ -156,7 +156,7 @@ def eventauth__StateNeededForProtoEvent : List String := [
   "func func(protoEvent *ProtoEvent) (result StateNeeded, err error)",
   "var content *membershipContent",
   "if protoEvent.Type == spec.MRoomMember {",
-  "if err = json.Unmarshal(protoEvent.Content, &content); err != nil {",
+  "if err = json.Unmarshal(exactMembersOnly(protoEvent.Content, content), &content); err != nil {",
   "err = errorf(\"unparseable member event content: %s\", err.Error())",
   "return",
   "}",
@@ -688,7 +688,7 @@ def eventauth_membershipAllower_membershipAllowed : List String := [
   "var err error",
   "if event.Type() == spec.MRoomMember {",
   "mapping := membershipContent{}",
-  "if err := json.Unmarshal(event.Content(), &mapping); err != nil {",
+  "if err := json.Unmarshal(exactMembersOnly(event.Content(), &mapping), &mapping); err != nil {",
   "return err",
   "}",
   "if mapping.MXIDMapping != nil && event.Version() == RoomVersionPseudoIDs {",
